@@ -64,4 +64,10 @@ def frameClass : Option Value → Path → FrameClass
          | _ => frameClass none rest)
       else if 0 ≤ i then .pad else .shift
 
+/-- paths made of field segments only (array indices renumber on removal). -/
+def fieldsOnly : Path → Bool
+  | [] => true
+  | .field _ :: r => fieldsOnly r
+  | .index _ :: _ => false
+
 end C18
